@@ -29,7 +29,8 @@ pub struct Pattern {
 	/// delegate: parameter types and return type (index into TYPES; ret None = void)
 	pub params: Vec<u8>,
 	pub ret: Option<u8>,
-	/// how each position of the synthetic method differs: 0 same, 1 Object, 2 a super type of the delegate's type, 3 an unrelated type, 4 a type outside the jar
+	/// how each position of the synthetic method differs: 0 same, 1 Object, 2 the first super type of the delegate's type, 3 an unrelated type, 4 a type outside the jar, 5 the farthest (transitive) super type;
+	/// widen_ret 6: a value where the delegate returns void / void where the delegate returns a value
 	pub widen: Vec<u8>,
 	pub widen_ret: u8,
 	pub arity_change: bool,
@@ -52,8 +53,8 @@ pub struct Case {
 
 fn pattern() -> impl Strategy<Value = Pattern> {
 	(
-		(0usize..MAIN.len() - 1, proptest::collection::vec(0u8..TYPES.len() as u8, 0..3), proptest::option::of(0u8..TYPES.len() as u8), proptest::collection::vec(prop_oneof![3 => Just(0u8), 2 => Just(1u8), 2 => Just(2u8), 1 => Just(3u8), 1 => Just(4u8)], 3)),
-		(prop_oneof![3 => Just(0u8), 2 => Just(1u8), 2 => Just(2u8), 1 => Just(3u8)], prop_oneof![9 => Just(false), 1 => Just(true)], prop_oneof![5 => Just(true), 1 => Just(false)], any::<bool>(), prop_oneof![6 => Just(0u8), 1 => 1u8..4], prop_oneof![5 => Just(0u8), 1 => 1u8..5], any::<bool>()),
+		(0usize..MAIN.len() - 1, proptest::collection::vec(0u8..TYPES.len() as u8, 0..3), proptest::option::of(0u8..TYPES.len() as u8), proptest::collection::vec(prop_oneof![3 => Just(0u8), 2 => Just(1u8), 2 => Just(2u8), 1 => Just(3u8), 1 => Just(4u8), 2 => Just(5u8)], 3)),
+		(prop_oneof![3 => Just(0u8), 2 => Just(1u8), 2 => Just(2u8), 1 => Just(3u8), 2 => Just(5u8), 1 => Just(6u8)], prop_oneof![9 => Just(false), 1 => Just(true)], prop_oneof![5 => Just(true), 1 => Just(false)], any::<bool>(), prop_oneof![6 => Just(0u8), 1 => 1u8..4], prop_oneof![5 => Just(0u8), 1 => 1u8..5], any::<bool>()),
 	)
 		.prop_map(|((class, params, ret, widen), (widen_ret, arity_change, synthetic, bridge_flag, blocker, body, same_name))| Pattern { class, params, ret, widen, widen_ret, arity_change, synthetic, bridge_flag, blocker, body, same_name })
 }
@@ -103,6 +104,17 @@ fn widened(t: &str, how: u8, inh: &Inheritance) -> String {
 			}
 		}
 		3 => if t == "Lp/D;" { "Lp/C;".to_string() } else { "Lp/D;".to_string() },
+		// the farthest super type (a transitive one whenever the type has a chain of super types in the jar)
+		5 => {
+			let mut a = Vec::new();
+			if let Some(c) = class_of(t) {
+				ancestors(inh, c, &mut a);
+			}
+			match a.last() {
+				Some(s) => format!("L{s};"),
+				None => t.to_string(),
+			}
+		}
 		_ => "Lext/X;".to_string(),
 	}
 }
@@ -150,7 +162,12 @@ fn build(case: &Case) -> (Built, Inheritance) {
 		if p.arity_change {
 			bparams.push("I".into());
 		}
-		let bret = ret.as_ref().map(|t| widened(t, p.widen_ret, &inh));
+		let bret = if p.widen_ret == 6 {
+			// void against a value: never bridge-compatible
+			if ret.is_none() { Some("Ljava/lang/Object;".to_string()) } else { None }
+		} else {
+			ret.as_ref().map(|t| widened(t, p.widen_ret, &inh))
+		};
 		let d_b = desc_of(&bparams, &bret);
 		let n_b = if p.same_name { n_s.clone() } else { format!("bridge{k}") };
 		if n_b == n_s && d_b == d_s {
